@@ -69,6 +69,43 @@ pub fn plan_for(prop: &str, tier: Tier, seed: u64, verif_dir: &str) -> Option<Pl
 			probes: vec![],
 			exhaustive: false,
 		},
+		"C09" => Plan {
+			property: "C09".into(),
+			tier,
+			seed,
+			jobs: vec![job("lnsim", "asyncpersist", n(600, 20000))],
+			level: "exploration".into(),
+			rule: "TODO".into(),
+			assumptions: t_assumptions.clone(),
+			probes: vec![],
+			exhaustive: false,
+		},
+		"C15" => Plan {
+			property: "C15".into(),
+			tier,
+			seed,
+			jobs: vec![
+				job("transportsim", "mix", n(25000, 400000)),
+				job("transportsim", "rotation", n(1000, 4000)),
+				job("transportsim", "adversary", n(8000, 40000)),
+			],
+			level: "exploration".into(),
+			rule: "TODO".into(),
+			assumptions: t_assumptions.clone(),
+			probes: vec![],
+			exhaustive: false,
+		},
+		"C20" => Plan {
+			property: "C20".into(),
+			tier,
+			seed,
+			jobs: vec![job("blocksyncsim", "sync", n(20000, 100000)), job("blocksyncsim", "tiplies", n(2000, 10000))],
+			level: "exploration".into(),
+			rule: "TODO".into(),
+			assumptions: t_assumptions.clone(),
+			probes: vec![],
+			exhaustive: false,
+		},
 		"C19" => Plan {
 			property: "C19".into(),
 			tier,
